@@ -112,7 +112,7 @@ def main(pid, tier, seed, replay_path=None):
     os.makedirs(d, exist_ok=True)
     fails, evals, nontriv, classes = [], 0, set(), {}
     rec_hist, rec_answers, rec_distinct, clusters_used, baselines, unretried = 0, 0, 0, {}, 0, 0
-    seq_count, seq_exchanges, seq_answers = 0, 0, 0
+    seq_count, seq_exchanges, seq_answers, far_checks = 0, 0, 0, 0
     for di in range(nds):
         prof = dict(gen.PROFILES["opt"], pempty=0.0)
         ds = gen.gen_dataset(rng.fork(), prof)
@@ -149,6 +149,14 @@ def main(pid, tier, seed, replay_path=None):
                     got0 = l3.canon_route(body0) if st0 is not None else "route noreply"
                     if got0 != want:
                         fails.append(("fault-free exchange (threads=%d): answered %r, the model gives %r" % (threads, got0[:160], want[:160]), q, acc, egr, ds, []))
+                # a request whose origin lies in a cluster WITHOUT stops: the straight-line pre-filter finds nothing, the router is
+                # not asked for the origin at all (NO_ACCESS_AT_ORIGIN).  Its fault-free answer is the reference for the same request
+                # sent right after a fault: state left behind by a failed lookup must not leak into a lookup that needs no router
+                far_q = dict(queries[0][0], origin_off=9 * l3.CLUSTER_STEP)
+                stub.set_tables(queries[0][1], queries[0][2])
+                stub.set_faults([])
+                far_ref = srv.get(l3.route_qs(far_q))[::2]
+                evals += 1
                 turn = 0
                 for qi, (q, acc, egr) in enumerate(queries):
                     st0, body0 = ref[qi]
@@ -210,6 +218,16 @@ def main(pid, tier, seed, replay_path=None):
                             rec_hist += 1
                             if queries[pj][0]["origin_off"] != stale:
                                 rec_distinct += 1
+                            if turn % 2 == 0:
+                                stub.set_faults([])
+                                stub.set_tables(queries[0][1], queries[0][2])      # the tables the reference answer was made with
+                                stf, hdf, bodyf = srv.get(l3.route_qs(far_q))
+                                evals += 1
+                                far_checks += 1
+                                if (stf, bodyf) != far_ref:
+                                    fails.append((label + ": right after the fault a request whose origin has no stop in reach (the router is not asked) is answered %r, fault-free it is %r"
+                                                  % ((l3.canon_route(bodyf) if stf is not None else "route noreply")[:120], l3.canon_route(far_ref[1])[:120]), q, acc, egr, ds,
+                                                  hist + ["healthy  %s" % l3.route_qs(far_q)]))
                             for (j, what) in ((pj, "another request"), (qi, "the same request")):
                                 q2, acc2, egr2 = queries[j]
                                 stub.set_tables(acc2, egr2)
@@ -251,6 +269,14 @@ def main(pid, tier, seed, replay_path=None):
                     stub.set_faults([])
                     if not srv.alive():
                         continue
+                    stub.set_tables(queries[0][1], queries[0][2])
+                    stf, hdf, bodyf = srv.get(l3.route_qs(far_q))
+                    evals += 1
+                    far_checks += 1
+                    if (stf, bodyf) != far_ref:
+                        fails.append(("after a sequence of %d faulted exchanges (threads=%d) a request whose origin has no stop in reach is answered %r, fault-free it is %r"
+                                      % (len(hist), threads, (l3.canon_route(bodyf) if stf is not None else "route noreply")[:120], l3.canon_route(far_ref[1])[:120]),
+                                      far_q, [], [], ds, hist + ["healthy  %s" % l3.route_qs(far_q)]))
                     for j, (q2, acc2, egr2) in enumerate(queries):
                         stub.set_tables(acc2, egr2)
                         stub.set_faults([])
@@ -292,7 +318,7 @@ def main(pid, tier, seed, replay_path=None):
                evaluations=evals, distinct_nontrivial=len(nontriv),
                recovery_histories=rec_hist, recovery_answers=rec_answers, recovery_histories_distinct_candidate_sets=rec_distinct,
                clusters_used=clusters_used, fault_free_reference_answers=baselines, connect_resets_not_retried=unretried,
-               fault_sequences=seq_count, fault_sequence_exchanges=seq_exchanges, answers_after_fault_sequences=seq_answers,
+               requests_without_router_lookup_after_a_fault=far_checks, fault_sequences=seq_count, fault_sequence_exchanges=seq_exchanges, answers_after_fault_sequences=seq_answers,
                rule="each fault of the property's list (refuse, drop, truncate, status 500, empty body, non-JSON, no durations, null entries, fewer entries) at the origin lookup, the destination lookup or both, on 1- and 4-thread servers; expected answer = extracted Osrm.v reply handling + extracted routing model; liveness after every request; "
                     "stops spread over 2 or 3 clusters 39 km apart so that lookups have different candidate stop sets; recovery history after every fault = healthy request with its origin in another cluster than the failed lookup, then the faulted request again, healthy: both must get the byte-identical answer of the fault-free exchange sequence (which must equal the model's answer); non-trivial = distinct (fault, position, threads, degraded answer class); plus random SEQUENCES of 3-6 faulted exchanges (any fault at either lookup, different requests) followed by every request healthy: byte-identical to the fault-free answers",
                samples=[dict(fault="status500", position="origin", expected="route noroute 1")], answer_classes=classes,
